@@ -175,7 +175,7 @@ def main_run(cid, tier, seed, jobs=None, replay=None):
     for v in m.violations:
         kk = match_known(v, known)
         if kk:
-            known_hits.setdefault(kk["key"], [kk, 0])[1] += 1
+            known_hits.setdefault(kk.get("id") or kk.get("key"), [kk, 0])[1] += 1
         else:
             unknown.append(v)
 
@@ -186,13 +186,15 @@ def main_run(cid, tier, seed, jobs=None, replay=None):
         rc = 1
         rdir = ROOT / "replays"
         rdir.mkdir(exist_ok=True)
+        for old in rdir.glob(f"{cid}-*.json"):
+            old.unlink()
         seen = set()
         for v in unknown:
             mech = v.get("mech", "?")
             if mech in seen:
                 continue
             seen.add(mech)
-            path = rdir / f"{cid}-{sig_of(v.get('case'))}.json"
+            path = rdir / f"{cid}-{sig_of([v.get('case'), mech])}.json"
             path.write_text(json.dumps({"property": cid, "violation": {k: v[k] for k in v if k != 'case'}, "case": v.get("case")}, indent=1, default=str))
             print(f"VIOLATION property={cid} replay={path}")
             print(f"  mechanism={mech}: {str(v.get('detail'))[:600]}")
@@ -247,6 +249,8 @@ def match_known(v, known):
     for k in known:
         if k.get("status") != "known":
             continue
-        if v.get("mech") == k.get("key"):
+        if k.get("key") is not None and v.get("mech") == k["key"]:
+            return k
+        if k.get("key_prefix") and str(v.get("mech", "")).startswith(k["key_prefix"]):
             return k
     return None
